@@ -459,3 +459,86 @@ Proof.
   apply Forall2_app_inv_l in H as (l1 & l2 & _ & H2 & _).
   inversion H2 as [|? e ? ? He _]; subst. exact (Hbad e He).
 Qed.
+
+(** ** Totality of the loader (rule factory part of C19; holds since fix f8fe9cb) *)
+
+Lemma create_no_panic k kv cfg c : create k kv cfg c <> Panic.
+Proof. unfold create. destruct (k_id kv); [destruct cfg; try destruct (k_ok kv)|]; discriminate. Qed.
+
+Lemma create_handler_no_panic k kv st b : create_handler k kv st b <> Panic.
+Proof.
+  unfold create_handler. destruct (negb b); [discriminate|].
+  destruct (s_if st); cbn [cond_res]; try discriminate; apply create_no_panic.
+Qed.
+
+Lemma exec_step_no_panic p st : exec_step p st <> Panic.
+Proof.
+  unfold exec_step. destruct (classify st) as [[k kv]|]; [|discriminate].
+  destruct k.
+  1: destruct (order_okb p KAuthn); [pose proof (create_no_panic KAuthn kv (s_cfg st) false) as H|];
+     [destruct (create KAuthn kv (s_cfg st) false); congruence || discriminate | discriminate].
+  all: match goal with |- context [create_handler ?k ?kv ?st ?b] =>
+         pose proof (create_handler_no_panic k kv st b) as H; destruct (create_handler k kv st b) end;
+       congruence || discriminate.
+Qed.
+
+Lemma exec_pipeline_no_panic sts : forall p, exec_pipeline p sts <> Panic.
+Proof.
+  induction sts as [|st r IH]; intro p; cbn [exec_pipeline]; [discriminate|].
+  pose proof (exec_step_no_panic p st) as H. destruct (exec_step p st); [apply IH|discriminate|congruence].
+Qed.
+
+Lemma eh_step_no_panic e : eh_step e <> Panic.
+Proof.
+  unfold eh_step. destruct (e_key e) as [kv|]; [|discriminate].
+  destruct (e_cfg e); try discriminate;
+    destruct (e_if e); cbn [cond_res]; try discriminate;
+    destruct (k_id kv); try discriminate; destruct (k_ok kv); discriminate.
+Qed.
+
+Lemma eh_pipeline_no_panic es : forall acc, eh_pipeline acc es <> Panic.
+Proof.
+  induction es as [|e r IH]; intro acc; cbn [eh_pipeline]; [discriminate|].
+  pose proof (eh_step_no_panic e) as H. destruct (eh_step e); [apply IH|discriminate|congruence].
+Qed.
+
+Lemma create_rule_no_panic fixed proxy def r : create_rule fixed proxy def r <> Panic.
+Proof.
+  unfold create_rule. destruct (proxy && negb (r_backend r)); [discriminate|].
+  pose proof (exec_pipeline_no_panic (r_exec r) empty_pipes) as H1.
+  destruct (exec_pipeline empty_pipes (r_exec r)) as [p| |]; [|discriminate|congruence].
+  pose proof (eh_pipeline_no_panic (r_eh r) []) as H2.
+  destruct (eh_pipeline [] (r_eh r)) as [eh| |]; [|discriminate|congruence].
+  match goal with |- (if is_nil ?x then _ else _) <> _ => destruct (is_nil x) end; [discriminate|].
+  destruct (negb (r_matchers_ok r)); discriminate.
+Qed.
+
+Lemma init_default_no_panic d : init_default d <> Panic.
+Proof.
+  unfold init_default.
+  pose proof (exec_pipeline_no_panic (d_exec d) empty_pipes) as H1.
+  destruct (exec_pipeline empty_pipes (d_exec d)) as [p| |]; [|discriminate|congruence].
+  pose proof (eh_pipeline_no_panic (d_eh d) []) as H2.
+  destruct (eh_pipeline [] (d_eh d)) as [eh| |]; [|discriminate|congruence].
+  destruct (is_nil (p_a p)); discriminate.
+Qed.
+
+Lemma load_rules_no_panic fixed proxy def rs : load_rules fixed proxy def rs <> Panic.
+Proof.
+  induction rs as [|r rest IH]; cbn [load_rules]; [discriminate|].
+  pose proof (create_rule_no_panic fixed proxy def r) as H.
+  destruct (create_rule fixed proxy def r); [|discriminate|congruence].
+  destruct (load_rules fixed proxy def rest); [discriminate|discriminate|congruence].
+Qed.
+
+Lemma loader_total fixed proxy d r rs def :
+  load fixed proxy d r <> FactoryPanic /\ load fixed proxy d r <> Loaded Panic /\
+  load_rules fixed proxy def rs <> Panic.
+Proof.
+  split; [|split; [|apply load_rules_no_panic]]; unfold load; destruct d as [dd|].
+  - pose proof (init_default_no_panic dd) as H. destruct (init_default dd); congruence || discriminate.
+  - discriminate.
+  - destruct (init_default dd); try discriminate. intro H; inversion H as [H1].
+    exact (create_rule_no_panic _ _ _ _ H1).
+  - intro H; inversion H as [H1]. exact (create_rule_no_panic _ _ _ _ H1).
+Qed.
